@@ -158,6 +158,21 @@ def check_record_agg(cfg, w, rep, lf, rt):
         else:
             rep.violation("write:%s.%s" % (key, nm), "`%s` stores record.%s = %s (expected %s)" % (short(lf.path), nm, term_str(f[nm])[:120], how),
                           loc=span_str(s.span), config=cfg, rule="write-side")
+    # an insert cannot report success without having appended the record it was given
+    appends = [e for e in w.own_effects(lf) if e.kind == "WriteData" and e.flags.get("op") in ("write_all", "write")]
+    body_ = lf.body
+    cut = {e.blk for e in appends if e.body is body_}
+    succ = [rd for rd in ret_defs(prog, body_) if rd.cls in ("success", "unknown", "delegated")]
+    reach = prog.cfg(body_).reachable(0, cut_nodes=cut)
+    badr = [rd for rd in succ if rd.blk in reach]
+    if badr or not cut:
+        rep.violation("write-skipped:%s" % key,
+                      "`%s` can return success without appending the record (return at %s bypasses the bucket write): what the caller attached "
+                      "to this commit — raw metadata, the commit's timestamp — would not be what lookups return" % (
+                          short(lf.path), blk_loc(body_, badr[0].blk) if badr else "?"),
+                      loc=blk_loc(body_, badr[0].blk) if badr else body_.loc(), config=cfg, rule="write-side")
+    else:
+        rep.ob(cfg, "write-side", key + ".always-appends", "every success return of `%s` passes the record append" % short(lf.path))
     # what is serialised is that record, and the same string is checksummed and written (C04 b covers the template)
     for bb, bblk, t in prog.call_sites(lf):
         if t.callee is not None and t.callee.path == "serde_json::to_string":
